@@ -41,52 +41,52 @@ type GhostStmt struct {
 }
 
 type FuncSpec struct {
-	Key       string // pkg.Recv.Name or pkg.Name
-	Pkg       string
-	Header    string
-	RecvName  string
-	Params    []Param
-	Results   []Param
-	Requires  []Clause
-	Ensures   []Clause
-	XEnsures  []Clause // ensures_on_panic; empty = must not panic
-	MayPanic  bool     // callee contract: may exit exceptionally
-	Loops     map[int]*LoopSpec
-	Trusted   bool
-	Modifies  []string
-	Witness   []string
-	Domain    string
-	Ghost     []GhostStmt
-	Asserts   []Clause
-	File      string
-	Line      int
-	Props     []string // property ids this contract serves
-	NoBody    bool
-	Thread    string   // "any": may run on a goroutine that races with Shutdown: shared fields are unstable
-	Applies   string   // higher-order dependency: runs this closure parameter once
-	Rollback  []string // ghost variables restored if the applied closure returns an error
-	AnyArgs   bool     // callback contract applicable to any signature (arguments ignored)
-	Opaque    []string // spec functions whose definition is hidden in this function's queries
-	Holds     string   // monitor held at entry and exit (critical section spans the call)
-	Dead      []string // canaries that must be unreachable (proved, not assumed)
-	Callbacks map[string]string // callee expr -> callback contract name
-	CallSites map[string]string // call site -> overriding contract key
-	CommitMayFail bool
-	Preserves []Clause
-	Async     string
+	Key             string // pkg.Recv.Name or pkg.Name
+	Pkg             string
+	Header          string
+	RecvName        string
+	Params          []Param
+	Results         []Param
+	Requires        []Clause
+	Ensures         []Clause
+	XEnsures        []Clause // ensures_on_panic; empty = must not panic
+	MayPanic        bool     // callee contract: may exit exceptionally
+	Loops           map[int]*LoopSpec
+	Trusted         bool
+	Modifies        []string
+	Witness         []string
+	Domain          string
+	Ghost           []GhostStmt
+	Asserts         []Clause
+	File            string
+	Line            int
+	Props           []string // property ids this contract serves
+	NoBody          bool
+	Thread          string            // "any": may run on a goroutine that races with Shutdown: shared fields are unstable
+	Applies         string            // higher-order dependency: runs this closure parameter once
+	Rollback        []string          // ghost variables restored if the applied closure returns an error
+	AnyArgs         bool              // callback contract applicable to any signature (arguments ignored)
+	Opaque          []string          // spec functions whose definition is hidden in this function's queries
+	Holds           string            // monitor held at entry and exit (critical section spans the call)
+	Dead            []string          // canaries that must be unreachable (proved, not assumed)
+	Callbacks       map[string]string // callee expr -> callback contract name
+	CallSites       map[string]string // call site -> overriding contract key
+	CommitMayFail   bool
+	Preserves       []Clause
+	Async           string
 	StrKeysPairwise bool
-	Invokes   string
+	Invokes         string
 }
 
 type SpecFunc struct {
-	Name   string
-	Params []Param
-	Ret    string
-	Body   ast.Expr
-	Dec    ast.Expr
-	Src    string
-	File   string
-	Line   int
+	Name     string
+	Params   []Param
+	Ret      string
+	Body     ast.Expr
+	Dec      ast.Expr
+	Src      string
+	File     string
+	Line     int
 	Uninterp bool
 	Native   string // Go expression implementing an uninterpreted function at replay time
 }
@@ -588,7 +588,6 @@ func (sp *Specs) scanAssumptions() []string {
 	sort.Strings(out)
 	return out
 }
-
 
 // rebalanceHeader corrects the parameter/result split of a header whose parameter types contain
 // parentheses (func types): the parameter list ends at the parenthesis matching its opening one.
